@@ -91,3 +91,40 @@ func sdkAddr(s string) (string, error) {
 	}
 	return a.String(), nil
 }
+
+// TestWriteSeeds regenerates harness/light/seeds.json, the seed corpus of the native fuzz target
+// (development tool: VERIF_WRITE_SEEDS=<path>).
+func TestWriteSeeds(t *testing.T) {
+	path := os.Getenv("VERIF_WRITE_SEEDS")
+	if path == "" {
+		t.Skip("VERIF_WRITE_SEEDS not set")
+	}
+	w := prod(t)
+	var seeds []string
+	add := func(tr kit.Transfer) {
+		if m, err := kit.BuildMemo(w.Cdc, tr, false); err == nil {
+			seeds = append(seeds, m)
+		}
+	}
+	fee := []kit.Action{{Kind: "fee", Fees: []kit.Fee{{Recipient: world.Addr("alice").String(), Bps: 100}, {Recipient: world.Addr("bob").String(), Fixed: "7"}}}}
+	add(kit.Transfer{Route: kit.Route{Kind: "cctp", Domain: 0, MintRecipient: kit.Fill32(1)}})
+	add(kit.Transfer{Actions: fee, Route: kit.Route{Kind: "cctp", Domain: 5, MintRecipient: kit.Fill32(1), DestCaller: kit.Fill32(2), Passthrough: []byte("hello")}})
+	add(kit.Transfer{Route: kit.Route{Kind: "hyp", Domain: 1, TokenID: w.HypToken[world.Uusdc], Recipient: kit.Fill32(3)}})
+	add(kit.Transfer{Actions: fee, Route: kit.Route{Kind: "hyp", Domain: 7, TokenID: w.HypToken[world.Ufoo], Recipient: kit.Fill32(3), HookID: w.HypHook, HookMeta: "0xdeadbeef", GasLimit: "200000", MaxFeeDenom: "uusdc", MaxFeeAmount: "10"}})
+	add(kit.Transfer{Route: kit.Route{Kind: "internal", To: world.Addr("carol").String()}})
+	add(kit.Transfer{Actions: []kit.Action{{Kind: "fee"}}, Route: kit.Route{Kind: "internal", To: world.Addr("carol").String()}})
+	for _, s := range append([]string{}, seeds...) {
+		seeds = append(seeds, numericEnums(s))
+	}
+	// hostile constants
+	seeds = append(seeds, `{"orbiter":{"pre_actions":[null],"forwarding":null}}`, `{"orbiter":{"forwarding":{"protocol_id":9}}}`,
+		`{"orbiter":{"pre_actions":[{"id":"ACTION_FEE","attributes":{"@type":"`+kit.URLFee()+`","fees_info":[null]}}]}}`,
+		`{"orbiter":{"pre_actions":[{"id":1,"attributes":{"@type":"`+kit.URLFee()+`","fees_info":[{"recipient":"x","basis_points":{"value":1},"amount":{"value":"2"}}]}}]}}`,
+		`{"orbiter":{"forwarding":{"protocol_id":4,"attributes":{"@type":"/cosmos.bank.v1beta1.MsgSend","a":1,"b":2}}}}`,
+		`{"orbiter":{},"other":1}`, `[{"orbiter":{}}]`)
+	bz, _ := json.MarshalIndent(seeds, "", " ")
+	if err := os.WriteFile(path, bz, 0o644); err != nil {
+		t.Fatal(err)
+	}
+	t.Logf("%d seeds written", len(seeds))
+}
